@@ -469,7 +469,7 @@ func init() {
 		Units: func(tier string) []vh.Unit {
 			depth, bound := 6, 2
 			if tier == "thorough" {
-				depth, bound = 8, 3
+				depth, bound = 10, 4
 			}
 			us := []vh.Unit{c20Histories(depth), c20CLI()}
 			for _, sc := range []string{"start-start", "start-start-stop", "stop-vs-tick", "wait-vs-stop", "stop-vs-update", "stop-vs-start"} {
